@@ -323,7 +323,11 @@ def run_once(ctx, f, fault_nth=None):
         if fault_nth is not None:
             fake.fail_nth(fault_nth)
         init_sums = {p: harness.fnv64(v.encode()) for p, v in files.items()}
-        res = harness.invoke(args, cwd=d, env=fake.env)
+        env = dict(fake.env)
+        if (encode(f) // 17) % 3 == 0:
+            # the parent environment already carries (stale) BUMPVER_* variables, e.g. a nested release
+            env.update(BUMPVER_OLD_VERSION="9.9.8", BUMPVER_NEW_VERSION="9.9.9")
+        res = harness.invoke(args, cwd=d, env=env)
         after = harness.snapshot(d)
         final_sums = {p: harness.fnv64(v) for p, v in after.items() if not p.startswith("hook-")}
         evs = fake.events()
